@@ -432,7 +432,7 @@ func (a *Analysis) LeftRecursive() (bool, string) {
 	}
 	// reachable only from the root matters for Build, but participle
 	// validates every production reachable from the root; so do we.
-	reach := a.Reachable()
+	reach := a.Compiled()
 	for _, p := range a.g.Prods {
 		if !reach[p.Name] {
 			continue
@@ -461,7 +461,13 @@ func (a *Analysis) LeftRecursive() (bool, string) {
 }
 
 // Reachable returns the productions and unions reachable from the root.
-func (a *Analysis) Reachable() map[string]bool {
+// Reachable returns the productions and unions the root refers to, directly or indirectly.
+func (a *Analysis) Reachable() map[string]bool { return a.reach(false) }
+
+// Compiled returns what Build compiles: everything reachable from the root plus every declared union and its members.
+func (a *Analysis) Compiled() map[string]bool { return a.reach(true) }
+
+func (a *Analysis) reach(compiled bool) map[string]bool {
 	seen := map[string]bool{}
 	var visit func(name string)
 	var walk func(p *Prod, e *Expr)
@@ -487,10 +493,12 @@ func (a *Analysis) Reachable() map[string]bool {
 		}
 	}
 	visit(a.g.Root)
-	// every declared union is compiled by Build (and can be parsed through ParserForProduction),
-	// whether or not the root refers to it
-	for _, u := range a.g.Unions {
-		visit(u.Name)
+	if compiled {
+		// every declared union is compiled by Build (and can be parsed through ParserForProduction),
+		// whether or not the root refers to it
+		for _, u := range a.g.Unions {
+			visit(u.Name)
+		}
 	}
 	return seen
 }
